@@ -347,7 +347,7 @@ class Literals(Either):
 # beyond the following symbols.
 
 
-filler = [' ', '\n', '\t']
+filler = [' ', '\n', '\t', '\r']
 
 
 class ParseState(object):
